@@ -323,7 +323,7 @@ class GeoBoxBase:
             tx, ty = map(int, pix_bbox.bbox[:2])
             roi = numpy.s_[ty : ty + ny, tx : tx + nx]
 
-        if isinstance(roi, int):
+        if isinstance(roi, (int, numpy.integer)):
             # leave the integer to roi_normalise, it knows about negative indexes
             roi = (roi, slice(None, None))
 
